@@ -87,6 +87,20 @@ def gen_prange():
                             glob_rng.append('%s:%s.%s:%s' % (rel, cls.name, fn.name, src))
                         if src == 'check_random_state' and fn.name == '__init__':
                             init_rng.append('%s:%s' % (rel, cls.name))
+    # state that outlives a call: `global x` inside a function (.py and .pyx), module-level `cdef <type> x = value` in a .pyx
+    mod_state = []
+    for p in sorted(glob.glob(os.path.join(REPO, 'sknetwork', '**', '*.pyx'), recursive=True) +
+                    glob.glob(os.path.join(REPO, 'sknetwork', '**', '*.py'), recursive=True)):
+        rel = os.path.relpath(p, REPO)
+        if '/tests/' in rel:
+            continue
+        for i, ln in enumerate(open(p).read().split('\n')):
+            code = ln.split('#')[0]
+            if re.match(r'^\s+global\s+\w', code):
+                mod_state.append('%s:global %s' % (rel, code.split('global', 1)[1].strip()))
+            if rel.endswith('.pyx') and re.match(r'^cdef\s+[\w\s\[\]:,\*]+?\b(\w+)\s*=\s*[^=]', code) and '(' not in code.split('=')[0]:
+                mod_state.append('%s:%s' % (rel, code.strip()))
+    out.append('Definition module_state_sites : list string := [%s].' % '; '.join(_cstr(x) for x in sorted(set(mod_state))))
     out.append('Definition libc_rand_files : list string := [%s].' % '; '.join(_cstr(x) for x in sorted(set(libc))))
     out.append('Definition global_rng_sites : list string := [%s].' % '; '.join(_cstr(x) for x in sorted(set(glob_rng))))
     out.append('Definition rng_built_in_init : list string := [%s].' % '; '.join(_cstr(x) for x in sorted(set(init_rng))))
